@@ -307,7 +307,9 @@ async def async_setup_entry(hass: HomeAssistant, config_entry: ConfigEntry) -> b
         await install_requirements(hass, config_entry, pyscript_folder)
         await load_scripts(hass, config_entry.data, global_ctx_only=global_ctx_only)
 
-        start_global_contexts(global_ctx_only=global_ctx_only)
+        # a reload of one context also re-executes its importers and the rest of its package: start them all
+        # (contexts that are already running have nothing left to start)
+        start_global_contexts()
 
     hass.services.async_register(DOMAIN, SERVICE_RELOAD, reload_scripts_handler)
 
